@@ -43,6 +43,198 @@ CHECKS["C03"] = dict(
         "are found by the differential oracle only (4 known findings listed in known_findings.d/C03.json; 3 defects repaired by fix: commits).",
    technique="Lean 4 print/parse round-trip theorem over tables translated from expression.cpp and parser.y + differential correspondence",
    design="4/C03")
+
+T = "Trusted: Lean kernel, axioms propext/Quot.sound/Classical.choice, "
+def add(pid, text, note, technique):
+    CHECKS[pid] = dict(text=text, note=note, technique=technique, design="4/" + pid)
+
+add("C01",
+    "PARTIAL. Proved in Lean 4 (the part that is logic): a production table regenerated on every run from parser.y and bison's automaton "
+    "(every production, mid-rule actions in place, bison's error recovery as virtual nonterminals) with a twelve-counter model of the builder "
+    "stacks and current-object pointers; theorem safe_of_locally_balanced (induction over all derivations, complete, abandoned at any symbol "
+    "boundary or recovering through error productions): if every production passes a decidable local balance check, no callback ever reaches "
+    "below the level its production was entered at or dereferences a null current object; the instance for today's table is closed by "
+    "decide +kernel outside a computed, pinned exception set whose members each have a witness input that is replayed on the library. The effect "
+    "table is validated on every traced callback (~265k per run). NOT proved (no C++ semantics available): memory safety of flex/bison tables, "
+    "libxml2, the heap, recursion depth and running time; these are exercised by a sanitizer stream (ASan+UBSan+_GLIBCXX_ASSERTIONS, timeouts) over "
+    "all nine entry points with grammar-derived, mutated and deep inputs - that part is testing and is labelled so in the evidence.",
+    T + "translate/grammar.py, grammar_trace.py, Model/C01Effect.lean (hand-written effect rows, validated by the trace correspondence), harness/c01*.cpp. "
+    "Not modelled: types of stack entries, statement lists of blocks, PrettyPrinter's own stacks, null attribute arguments of the XML reader, "
+    "stack depth, time. Known findings (stack overflow on deep chains, nested array declarator resetting the static types counter, rate of a "
+    "non-identifier) are listed in known_findings.d/C01.json; 10 defects were repaired by fix: commits.",
+    "Lean 4 stack-discipline theorem over a grammar table translated from parser.y + trace correspondence; sanitizer stream (testing) for the runtime part")
+
+add("C04",
+    "Lean 4 proof: for every well-formed abstract model M (any number of templates, parameters, locations, branchpoints, edges, labels, "
+    "instances, processes) build(readXml(renderXml M)) = docOf M with empty builder stacks, where readXml is a tree-level model of "
+    "xmlreader.cpp's recursive descent and build a model of the DocumentBuilder callbacks (C04_reader, C04_roundtrip, C04_no_extra, "
+    "C04_args_positional, C04_instance_binding); the exception shape (exponentialrate label before invariant) has a proved witness. The reader and "
+    "builder tables the model relies on are regenerated from xmlreader.cpp / DocumentBuilder.cpp / document.cpp and checked by decide "
+    "(C04_tables_*); the correspondence runs generated XML models through the real parse_XML_buffer and compares the callback trace and the "
+    "document dump with the model's.",
+    T + "translate/xml_tables.py, checks/c04_model.py (generator/renderer), harness/c04.cpp. Not modelled: LSC templates, queries, the text layer "
+    "(libxml2 itself), global last-wins lookup among equally named objects. 1 known finding (label order), 1 defect repaired (comment before closing tag).",
+    "Lean 4 round-trip theorem for models of the XML reader and document builder + table translation + trace/dump correspondence")
+
+add("C05",
+    "Lean 4 proof: for every model of the common subset and every choice of full/chained transitions, the document built from the XTA "
+    "rendering (model of the process productions of parser.y incl. the static rootTransId) equals the document built from the XML rendering "
+    "(C05_equivalent, C05_xta_document, C05_chaining_irrelevant); C05_tables ties the section order of Transition productions to the current "
+    "grammar. Diagnostics and the supported-methods verdict are functions of the document in the library (static_analysis never sees the front "
+    "end); their equality is compared on the real library: dump + diagnostics + verdict of parse_XML_buffer(xml M) vs parse_XTA(xta M), 20% of "
+    "the models fault-injected so that diagnostics occur.",
+    T + "the C04 machinery, harness/c04.cpp. Outside the common subset (not claimed): urgent+committed on one location, duplicate names, probability "
+    "on chained transitions. Known finding: default action name SKIP vs empty.",
+    "Lean 4 equivalence theorem over models of the two front ends + differential run of both real front ends")
+
+add("C06",
+    "PARTIAL (flex's tokenisation is modelled, not verified). Lean 4 proof over definitions regenerated from lexer.l (all rules: start condition, "
+    "pattern class, tracker.newline argument), libparser.h, position.cpp, document.cpp and xmlreader.cpp (tie_* theorems state that the regenerated "
+    "definitions are the model's): binary search returns the last entry <= pos on every monotone table (C06_find); the line table built while "
+    "scanning ANY text resolves every settled position to the count-the-newlines line and column (C06_linecol, C06_linecol_lexemes) unless a "
+    "string literal contains a newline (witness proved, known finding); the XPath printed for a node selects exactly that node for every row "
+    "that agrees with tag_map (C06_xpath, C06_xpath_rows); token ranges are ordered and inside the block, YYLLOC_DEFAULT keeps that (C06_ranges_*); a "
+    "one-line token's diagnostic covers exactly the token. Correspondence: the line table of the real library for every offset of generated "
+    "blocks, XPath of every diagnostic of fault-injected XML models evaluated with libxml2's DOM.",
+    T + "translate/pos_tables.py (fails closed on unknown rule shapes), harness/c06.cpp. Which diagnostic the type checker attaches to which "
+    "expression position is checked by fault injection (testing), not proved.",
+    "Lean 4 theorems over lexer/position/XPath models translated from the source + differential correspondence and fault injection")
+
+add("C07",
+    "Lean 4 proof: the scope machine of the builder (symbol heap, frame store with parent links, per-frame name->last-index map, frame stack, "
+    "frame_t::resolve) computes on every well-nested script of enter/leave/declare/use events exactly the declarative binding (innermost open scope, "
+    "latest preceding declaration): C07_binding, C07_innermost, C07_latest, C07_unknown, C07_bound_is_declared; the four machine operations "
+    "are linked to the builder-model callbacks that perform them, and C07_grammar_frame_balanced (decide over the table regenerated from parser.y) "
+    "shows every production pushes and pops frames in matched pairs. Correspondence: generated models (blocks, functions, parameters, select, "
+    "quantifiers, templates, shadowing) through the real parser with a TraceBuilder recording the symbol bound by every expr_identifier, and P.x queries.",
+    T + "translate/c16_grammar.py, harness/c07.cpp, c08 TraceBuilder. Declarations are told apart by unique range types (decl_var passes no position). "
+    "Duplicate definitions (an error) are outside the property.",
+    "Lean 4 refinement theorem (scope machine = declarative binding) + trace correspondence")
+
+add("C08",
+    "Lean 4 proof: Inv (user object of own symbol, back pointers, exactly one source/target of the right kind per edge, dense numbering in creation "
+    "order, instance parameter/argument structure) holds initially and is preserved by EVERY callback of the builder model including all error "
+    "and throw branches, hence in every reachable state for any callback sequence whatsoever (C08_init, C08_step, C08_reachable and corollaries); "
+    "own-template and init-location clauses under the callers' discipline (C08_own_template, C08_init_own_location, C08_init_location). "
+    "Correspondence: TraceBuilder (generated from builder.h) feeds the real callback sequences of generated and faulted XML/XTA inputs to the Lean "
+    "model and compares stack depths and document shape; an invariant walker checks the real Document after every parse.",
+    T + "Model/Builder.lean (hand-written reading of DocumentBuilder/StatementBuilder/ExpressionBuilder, validated by the trace correspondence), "
+    "translate/c08_builder_h.py, harness/c08*.  Expressions are opaque identities. Known finding: an XTA process with an empty body is accepted without init.",
+    "Lean 4 invariant by induction over all builder callback sequences + trace correspondence + invariant walker on the implementation")
+
+add("C09",
+    "Lean 4 proof over lexer/keyword/grammar tables regenerated from lexer.l, keywords.cpp, parser.y: inserting or removing trivia (blanks, "
+    "newlines, line and block comments) between tokens leaves the token stream unchanged (C09_trivia*); renaming an identifier injectively to a "
+    "fresh identifier-shaped name outside the computed exception names commutes with lexing and with name resolution (C09_rename_*, "
+    "C09_scope_equivariant); keyword aliases (and/&&, or/||, not/!, :=/=) have identical grammar roles and callback traces (C09_alias_*); redundant "
+    "parentheses do not change the parse (C09_paren*, Pratt model shared with C02). Exception shapes have proved witnesses and are replayed. "
+    "Correspondence/oracle: verdict and diagnostics of the real library on generated models and queries before/after each rewrite family.",
+    T + "translate/c09_tables.py, harness/c09.cpp. The LALR automaton is represented by the operator-precedence model (validated in C02). Known findings: "
+    "one-letter tokens / soft keywords in queries and in syntax-error texts. 2 defects repaired (typedef named A/U/R/W/E, EXPECT: in comments).",
+    "Lean 4 equivariance theorems over tables translated from lexer.l/keywords.cpp/parser.y + metamorphic differential oracle")
+
+add("C10",
+    "Lean 4 proof over the typing clauses regenerated from typechecker.cpp on every run: for formula trees of ANY depth over clock bounds, clock "
+    "differences, integer predicates and && || ! imply xor == != forall exists, whatever is accepted as a guard or as an invariant is convex "
+    "(C10_guard_sound, C10_invariant_sound), integral-typed formulas contain no clock (C10_integral_clockfree), the shapes the statement lists are "
+    "rejected (C10_listed_shapes_rejected), and every conjunction of accepted atoms is accepted (C10_conj_complete_*); per-operator facts are complete "
+    "tables over the 39 type kinds by decide +kernel. The computed exception set leafExceptions is empty on the current tree (it was [(NEQ,CLOCK,CLOCK)] "
+    "before the fix: commit). Correspondence: 13.8k operand/operator combinations and 7.2k formulas as guard and invariant in real XML models vs the model; "
+    "independent convexity oracle on the implementation's verdicts.",
+    T + "translate/typeclauses.py (own C++ subset parser, fails closed), harness/c10.cpp, c14.cpp. Observations outside the quantifier: inline-if laundering, "
+    "bounds that are boolean expressions.",
+    "Lean 4 soundness/completeness theorems over typing rules translated from typechecker.cpp + differential correspondence")
+
+add("C11",
+    "Lean 4 proof over a configuration regenerated from expression.cpp (get_symbols, collect_possible_writes), statement.h/.cpp (visitor fields) and "
+    "typechecker.cpp (check sites): for every program and expression, if the expression may write state in the declarative sense (assignment family, "
+    "++/--, calls to functions whose bodies write, through any statement nesting and call chain) then changes_any_variable reports it "
+    "(C11_sound_*, C11_function_changes), side-effect-free twins are not rejected (C11_twin*), and every context the property lists has a check site "
+    "(C11_contexts, C11_sites_complete); general theorems hold for every configuration satisfying decidable completeness predicates, today's "
+    "instance by decide. Correspondence: real function_t::changes and the verdicts on contexts x write forms, random programs with Python ground truth.",
+    T + "translate/effects.py (fails closed), harness/c11*.  The harness reads private members of TypeChecker (#define private public, read-only). "
+    "1 defect repaired (P.f() in queries).",
+    "Lean 4 soundness theorem for the write analysis over tables translated from the source + differential correspondence")
+
+add("C12",
+    "Lean 4 proof (kind lists and branch shapes regenerated from type.cpp / typechecker.cpp / the binder callbacks): for lvalue paths of any length "
+    "and types of any depth, a target rooted in a constant (declared const, const member, constant parameter, binder of select / quantifier / "
+    "for-iteration) is never a modifiable lvalue (C12_reject), hence every write kind, reference argument and instantiation argument on it is rejected "
+    "(C12_write_rejected, C12_ref_argument_rejected, C12_inst_argument_rejected, C12_binder_*), get_sub keeps constness (C12_getSub_keeps_const, "
+    "C12_static_type_const), and the mutable twin is accepted (C12_accept, C12_write_accepted, C12_decl_constFree_accepted). Correspondence: 411k verdicts of "
+    "the real type checker on generated declarations x paths x write forms vs the model, with an independent oracle.",
+    T + "translate/constness.py, harness/c12.cpp. 1 defect repaired (const array member in a struct).",
+    "Lean 4 theorems over constness rules translated from the source + differential correspondence")
+
+add("C13",
+    "Lean 4 proof over the same regenerated configuration as C11: an expression accepted in a compile-time context (array size, range bound, "
+    "initialiser of a constant, value argument of an instantiation) does not depend, through any chain of function calls and statement nesting, on a "
+    "variable that is not a constant (C13_sound, C13_rejects, C13_function_depends, C13_contexts, C13_argument); random builtins at the root are "
+    "caught (C13_random_root) and nested ones since the fix: commit (C13_random_partial with the regenerated flag). Computed exception set: random "
+    "inside function bodies, free process parameter reached through a function body - each with a proved witness, replayed on the library. "
+    "Correspondence: real function_t::depends, isCompileTimeComputable and verdicts on generated programs.",
+    T + "translate/effects.py, harness/c13.cpp. 2 known findings, 1 defect repaired.",
+    "Lean 4 soundness theorem for the dependency analysis over tables translated from the source + differential correspondence")
+
+add("C14",
+    "Lean 4 proof over rules regenerated from typechecker.cpp and type.h on every run, for ALL types (arbitrary nesting of prefixes, REF, LABEL, RANGE, "
+    "ARRAY, RECORD): typeBin op a b = typeBin op b a for + * == != && || & | ^ <? >? (typeBin_symm), areEquivalent / areEqCompatible / isSameScalarType "
+    "symmetric, inline-if acceptance symmetric under branch swap with negated condition (inlineIf_accept_symm), reference-parameter acceptance "
+    "independent of which side carries REF/CONST (refParam_symm); result kind symmetric outside a computed exception set (two different integral "
+    "kinds; witness proved, known finding). Correspondence: 115k questions to the real checkExpression/areEquivalent/isModifiableLValue vs the model.",
+    T + "translate/typeclauses.py, harness/c14.cpp. 2 defects repaired by one-token fix: commits (t1/t2, EF/REF).",
+    "Lean 4 symmetry theorems over typing rules translated from typechecker.cpp + differential correspondence")
+
+add("C15",
+    "Lean 4 proof over definitions regenerated from lexer.l / libparser.h / position.cpp / parser.y (global accesses): below 2^32 the position machinery is "
+    "translation invariant - every settled position of a block resolves to the same (path, line, column) whatever the counter's starting value and the "
+    "table's earlier content, and no exception is raised (C15_shift, C15_shift_text); every parser global is overwritten before use or written before "
+    "read (C15_reinit, C15_rootTransId_written_first, C15_types_written_first); flex's start condition is back to INITIAL at end of input "
+    "(C15_yyStart_restored); yylloc is initialised (C15_eof_location_with_init). The 2^32 wrap has a proved witness (known finding). Correspondence: the "
+    "same calls in one process vs each in a fresh forked process (rc, exception class, diagnostics, document dump, methods, query tree).",
+    T + "translate/pos_tables.py, harness/c15.cpp. Builder/Document objects are per call; static data inside libxml2 is not modelled. 1 defect repaired (yylloc).",
+    "Lean 4 translation-invariance and reinitialisation theorems over translated definitions + history-differential correspondence")
+
+add("C16",
+    "Lean 4 proof on the builder model: for ALL callback lists a label's text can produce (expression-level callbacks, valid, faulty or abandoned by error "
+    "recovery) followed by the label's own callback, the document outside that label's field is unchanged, the fragment stack keeps its base, and the "
+    "frame stack is restored exactly when the binders are balanced (C16_label_text_keeps_doc, C16_label_frame, C16_fragments*, C16_frames_balanced); declaration "
+    "blocks only extend (C16_decl_prefix). The exception shapes (a quantifier binder abandoned between push and pop) are computed from the grammar table "
+    "regenerated from parser.y (C16_exception_shapes), negated on witnesses and replayed. Correspondence/oracle: single-fault injection into one block of "
+    "generated models; every other field of the dump and the attribution of every diagnostic must equal the fault-free run.",
+    T + "translate/c16_grammar.py, Model/Builder.lean (validated by the C08 trace correspondence), harness/c16.cpp. Known findings: leaked binder frames "
+    "(7 callbacks), one cascading diagnostic.",
+    "Lean 4 frame theorem over all label callback lists + grammar-derived exception shapes + fault-injection oracle")
+
+add("C17",
+    "Lean 4 proof for EVERY configuration of the feature checker (Cfg.current is regenerated from featurechecker.cpp / expression.cpp on every run): for "
+    "documents of any size, if no placement of a restricting feature in the model lies in the computed set exceptions cfg, the reported verdict is sound "
+    "w.r.t. the property's specification (C17_partial, C17_full_of_no_exceptions); never-instantiated templates and declaration order do not affect it "
+    "(C17_uninstantiated, C17_order_irrelevant, full strength); each excepted placement has a witness document with the negation proved. After the five fix: "
+    "commits the set is two placements (rate below a quantifier; known findings). Correspondence/oracle: every placement x operator x operand order x "
+    "declaration site as a real model through parse_XML_buffer, verdict vs specification and vs model.",
+    T + "translate/feature.py, harness/c17.cpp. The abstract document (which expressions are guards etc.) is our reading of document.h.",
+    "Lean 4 soundness theorem parameterised by a configuration translated from featurechecker.cpp + placement oracle")
+
+add("C19",
+    "Lean 4 proof on trees with node identities (arity table regenerated from expression_t::get_size): equal is reflexive, symmetric, transitive; "
+    "clone_deeper yields an equal tree sharing no node with the original, and mutating either leaves the other unchanged; subst replaces exactly the "
+    "occurrences of the symbol, leaves the source untouched and is the identity for self-substitution; equal distinguishes trees differing in a kind, "
+    "symbol, constant or operand order (20 theorems, all sizes). equal => same text is proved outside a computed exception shape (constants of "
+    "different type class, witness b==true / b==1 proved and replayed; known finding). Correspondence: 1.1M law instances on the real expression_t API "
+    "over parsed trees and their mutations.",
+    T + "translate/arity.py, harness/c19.cpp. NaN constants excluded (the parser cannot produce one).",
+    "Lean 4 algebraic laws over a heap model of expression_t + law checking on the implementation")
+
+add("C20",
+    "Lean 4 proof: for a writer model parameterised by a configuration computed from tables regenerated from xmlwriter.cpp, readGraph(writeXml d) = "
+    "graphOf d for every document none of whose shapes is in the computed exception set (C20_partial), writing crashes exactly on the computed crash "
+    "shapes (C20_crash_iff), written ids are unique (C20_ids_unique), each exception shape has a proved witness (C20_witness). Correspondence: generated "
+    "documents written by the real write_XML_file, read back with libxml2's tree API and compared field by field with the document and the model's "
+    "predicted deviations.",
+    T + "translate/xml_tables.py, harness/c04.cpp (op write). Layout coordinates are not compared. Known findings: 2nd+ select binding and select type "
+    "not written, crash on a process with free parameters. 2 defects repaired (probability/controllable, branchpoint edges).",
+    "Lean 4 round-trip theorem for a writer model configured from xmlwriter.cpp + write/read-back correspondence")
 NOT_APPLICABLE = {}
 ALL = ["C%02d" % i for i in range(1, 21)]
 PENDING = "check not built yet in this revision (work in progress, see DESIGN.md section 8 order of work)"
@@ -52,11 +244,11 @@ m = {
  "setup_cmd": "./check --setup",
  "hooks": {"guard": "UTAP_VERIF", "enable": "checks compile /repo's working tree themselves with -DUTAP_VERIF (vlib/core.py build_repo)",
            "baseline_off_cmd": "cmake -S /repo -B /repo/_build -G Ninja && cmake --build /repo/_build && ctest --test-dir /repo/_build -j8 --timeout 900",
-           "source_commits": [], "add_only": True},
+           "source_commits": ["0c3c40a"], "add_only": True},
  "engines": [{"name": "lean4-proof", "path": "lean/", "serves_properties": sorted(CHECKS),
               "kind_free_text": "Lean 4.33 models + theorems; python translators; C++ correspondence harnesses"}],
  "checks": [],
- "notes": "See DESIGN.md. Findings: KNOWN_FINDINGS.json.",
+ "notes": "See DESIGN.md. Findings: KNOWN_FINDINGS.json + known_findings.d/*.json (status known / fixed).",
  "not_applicable": [],
 }
 for pid in ALL:
